@@ -30,6 +30,9 @@ const bufferContentField = 9002
 const builderContentField = 9003
 
 func pureModel(full string) bool {
+	if opaqueModels[full] {
+		return true
+	}
 	m, ok := models[full]
 	return ok && m.pure
 }
@@ -39,7 +42,48 @@ func effectModel(full string, ef *loopEffects, c *ssa.CallCommon) bool {
 	return false
 }
 
+// callbackModels: library functions that invoke a function-valued argument any number of times and
+// have no other effect on the program heap (their own state is private); results are unconstrained.
+var callbackModels = map[string]int{
+	"(*github.com/go-faster/jx.Decoder).Obj":                       1,
+	"(*github.com/go-faster/jx.Decoder).ObjBytes":                  1,
+	"(*github.com/go-faster/jx.Decoder).Arr":                       1,
+	"(go.opentelemetry.io/collector/pdata/pcommon.Map).Range":      1,
+	"(go.opentelemetry.io/collector/pdata/pcommon.Slice).RemoveIf": 1,
+}
+
+// opaqueModels: library functions that do not touch the program heap; results are unconstrained
+// (fresh values, older than anything allocated later).
+var opaqueModels = map[string]bool{
+	"github.com/go-faster/jx.DecodeStr":                 true,
+	"github.com/go-faster/jx.DecodeBytes":               true,
+	"(*github.com/go-faster/jx.Decoder).Next":           true,
+	"(*github.com/go-faster/jx.Decoder).Str":            true,
+	"(*github.com/go-faster/jx.Decoder).StrBytes":       true,
+	"(*github.com/go-faster/jx.Decoder).Skip":           true,
+	"(*github.com/go-faster/jx.Decoder).Num":            true,
+	"(*github.com/go-faster/jx.Decoder).Null":           true,
+	"(*github.com/go-faster/jx.Decoder).Bool":           true,
+	"(*github.com/go-faster/jx.Decoder).Raw":            true,
+	"(github.com/go-faster/jx.Num).IsInt":               true,
+	"(github.com/go-faster/jx.Num).Int64":               true,
+	"(github.com/go-faster/jx.Num).Float64":             true,
+	"github.com/go-logfmt/logfmt.NewDecoder":            true,
+	"(*github.com/go-logfmt/logfmt.Decoder).ScanRecord": true,
+	"(*github.com/go-logfmt/logfmt.Decoder).ScanKeyval": true,
+	"(*github.com/go-logfmt/logfmt.Decoder).Key":        true,
+	"(*github.com/go-logfmt/logfmt.Decoder).Value":      true,
+	"(*github.com/go-logfmt/logfmt.Decoder).Err":        true,
+	"strings.NewReader":                                 true,
+	"(*regexp.Regexp).FindStringSubmatch":               true,
+	"(*regexp.Regexp).SubexpNames":                      true,
+}
+
 func (ex *Exec) modelCall(full string, args []Val, st *State, sig *types.Signature) ([]Val, bool) {
+	if opaqueModels[full] {
+		ex.assumed["model "+full+": does not touch the program heap; its results are unconstrained"] = true
+		return ex.freshResults(st, sig, "lib"), true
+	}
 	m, ok := models[full]
 	if !ok {
 		return nil, false
@@ -124,9 +168,25 @@ func init() {
 	reg("strings.ToLower", "uninterpreted function", func(ex *Exec, a []Val, st *State, _ *types.Signature) []Val {
 		return []Val{UF("str.toLower", SStr, tm(a[0]))}
 	})
-	reg("strings.Cut", "before/after/found are uninterpreted functions of (s, sep); found => s == before+sep+after is NOT assumed", func(ex *Exec, a []Val, st *State, _ *types.Signature) []Val {
+	reg("strings.Cut", "before/after/found are uninterpreted functions of (s, sep) with: found => s == before+sep+after; !found => before == s && after == \"\"; 0 <= len(before) <= len(s) (that the cut is at the FIRST occurrence is not modelled)", func(ex *Exec, a []Val, st *State, _ *types.Signature) []Val {
 		s, sep := tm(a[0]), tm(a[1])
-		return []Val{UF("str.cut.before", SStr, s, sep), UF("str.cut.after", SStr, s, sep), UF("str.cut.found", SBool, s, sep)}
+		before, after, found := UF("str.cut.before", SStr, s, sep), UF("str.cut.after", SStr, s, sep), UF("str.cut.found", SBool, s, sep)
+		if !s.hasBound && !sep.hasBound {
+			ex.fact(nil, And(Le(IntT(0), ex.slen(before)), Le(ex.slen(before), ex.slen(s)), Le(IntT(0), ex.slen(after))))
+			ex.fact(nil, Implies(found, And(Eq(s, SConcat(before, SConcat(sep, after))), Eq(ex.slen(s), Add(ex.slen(before), Add(ex.slen(sep), ex.slen(after)))))))
+			ex.fact(nil, Implies(Not(found), And(Eq(before, s), Eq(ex.slen(after), IntT(0)))))
+		}
+		return []Val{before, after, found}
+	})
+	reg("strings.CutPrefix", "found == HasPrefix(s, prefix); found => s == prefix+after; !found => after == s", func(ex *Exec, a []Val, st *State, _ *types.Signature) []Val {
+		s, pre := tm(a[0]), tm(a[1])
+		after, found := UF("str.cutPrefix.after", SStr, s, pre), UF("str.hasPrefix", SBool, s, pre)
+		if !s.hasBound && !pre.hasBound {
+			ex.fact(nil, Le(IntT(0), ex.slen(after)))
+			ex.fact(nil, Implies(found, And(Eq(s, SConcat(pre, after)), Eq(ex.slen(s), Add(ex.slen(pre), ex.slen(after))))))
+			ex.fact(nil, Implies(Not(found), Eq(after, s)))
+		}
+		return []Val{after, found}
 	})
 	reg("strings.Compare", "uninterpreted function", func(ex *Exec, a []Val, st *State, _ *types.Signature) []Val {
 		return []Val{UF("str.compare", SInt, tm(a[0]), tm(a[1]))}
@@ -421,7 +481,9 @@ func init() {
 	ghostSorts["readerPos"] = arrSort(SPtr, SInt)
 	rdata := func(p *Term) *Term { return UF("reader.data", SStr, p) }
 	rfail := func(p *Term) *Term { return UF("reader.fails", SBool, p) }
-	rposGet := func(st *State, p *Term) *Term { return Select(st.heap.array("G@readerPos", ghostSorts["readerPos"]), p) }
+	rposGet := func(st *State, p *Term) *Term {
+		return Select(st.heap.array("G@readerPos", ghostSorts["readerPos"]), p)
+	}
 	rposSet := func(st *State, p *Term, v *Term) {
 		st.heap.set("G@readerPos", Store(st.heap.array("G@readerPos", ghostSorts["readerPos"]), p, v))
 	}
@@ -618,6 +680,7 @@ func init() {
 	}
 	reg("github.com/prometheus/common/model.ParseDuration", "(value, err) are uninterpreted functions of the text", parse2("model.parseDuration", SInt))
 	reg("time.ParseDuration", "(value, err) are uninterpreted functions of the text", parse2("time.parseDuration", SInt))
+	reg("strconv.Unquote", "(value, err) are uninterpreted functions of the text", parse2("strconv.unquote", SStr))
 	reg("github.com/dustin/go-humanize.ParseBytes", "(value, err) are uninterpreted functions of the text", parse2("humanize.parseBytes", SInt))
 	reg("net/netip.ParseAddr", "(value, err) are uninterpreted functions of the text", parse2("netip.parseAddr", SInt))
 	reg("time.Parse", "(value, err) are uninterpreted functions of (layout, text)", func(ex *Exec, a []Val, st *State, _ *types.Signature) []Val {
